@@ -168,6 +168,10 @@ def check(ctx, run):
     # pre actions precede createTest (setup allocations are inside the period) and post actions follow destroyTest: the runner folded
     from .C01 import bracketing_rule
     bracketing_rule(prog, run, "R3")
+    # with tests run in separate processes the leak verdict is a failure added to the RESULT in the child (the plugin never marks the
+    # shell): what the child reports to the parent must be "failures were added", whatever the shell says (shared with C11.R2/R3)
+    from .C11 import separate_process_rules
+    separate_process_rules(prog, run, "R3", "R3")
     fr = prog.fn(PL + "::FinalReport")
     run.analysed(fr)
     okf = True
